@@ -280,6 +280,7 @@ func c16RunPlace(op string) eng.Result {
 	if op == "=" {
 		c16BothWhens(&res, ss)
 		c16Compound(&res, ss)
+		c16WhenAndWhere(&res, ss)
 	}
 	res.Outcomes = []string{"place" + op}
 	return res
@@ -437,6 +438,89 @@ func c16Compound(res *eng.Result, ss *sigSet) {
 			ss.add(site+"/where/evaluated-without-error", fmt.Sprintf("where %q kept %v, no error", e.text, kept))
 		case strings.Join(kept, ",") != strings.Join(want, ","):
 			ss.add(site+"/where/wrong-entries", fmt.Sprintf("where %q kept %v want %v", e.text, kept, want))
+		}
+	}
+}
+
+// c16WhenAndWhere: a when on a list (and on a list nested in its entries) together with a where
+// parameter: an entry is read exactly when both hold.
+func c16WhenAndWhere(res *eng.Result, ss *sigSet) {
+	m := model.LoadText(`module ww { namespace "urn:ww"; prefix ww; revision 0;
+  list l { key k; when "z<10"; leaf k { type string; } leaf z { type int32; } leaf tag { type string; }
+    list n { key j; when "y<10"; leaf j { type string; } leaf y { type int32; } } } }`)
+	t := model.NewTree()
+	l := &model.List{}
+	type row struct {
+		z   int
+		tag string
+	}
+	rows := []row{{5, "x"}, {5, "y"}, {15, "x"}, {15, "y"}, {9, "x"}, {10, "x"}}
+	for i, r := range rows {
+		e := model.NewTree()
+		e.Leaves["k"] = model.L(val.String(fmt.Sprint("k", i)))
+		e.Leaves["z"] = model.L(val.Int32(r.z))
+		e.Leaves["tag"] = model.L(val.String(r.tag))
+		n := &model.List{}
+		for j, y := range []int{3, 30} {
+			ne := model.NewTree()
+			ne.Leaves["j"] = model.L(val.String(fmt.Sprint("j", j)))
+			ne.Leaves["y"] = model.L(val.Int32(y))
+			n.Entries = append(n.Entries, ne)
+		}
+		e.Lists["n"] = n
+		l.Entries = append(l.Entries, e)
+	}
+	t.Lists["l"] = l
+	for _, where := range []string{"", "tag='x'", "tag='y'", "z>7", "tag!='x'"} {
+		var want []string
+		for i, r := range rows {
+			ok := r.z < 10
+			switch where {
+			case "tag='x'":
+				ok = ok && r.tag == "x"
+			case "tag='y'":
+				ok = ok && r.tag == "y"
+			case "z>7":
+				ok = ok && r.z > 7
+			case "tag!='x'":
+				ok = ok && r.tag != "x"
+			}
+			if ok {
+				want = append(want, fmt.Sprint("k", i, ":j0"))
+			}
+		}
+		gotl := &model.List{}
+		var err error
+		fr, msg, pan := eng.Recover(func() {
+			path := "l"
+			if where != "" {
+				path += "?where=" + url.QueryEscape(where)
+			}
+			var sel *node.Selection
+			if sel, err = node.NewBrowser(m, store.NewRef(t).Node()).Root().Find(path); err == nil && sel != nil {
+				err = sel.UpsertInto(store.ListNode(gotl, model.DefAt(m, "l").(*meta.List)))
+			}
+		})
+		res.Evals++
+		res.Nontriv++
+		var got []string
+		for _, e := range gotl.Entries {
+			var js []string
+			if n := e.Lists["n"]; n != nil {
+				for _, ne := range n.Entries {
+					js = append(js, keyText(ne.Leaves["j"].Canon))
+				}
+			}
+			got = append(got, keyText(e.Leaves["k"].Canon)+":"+strings.Join(js, "+"))
+		}
+		site := "C16/list-when-and-where/" + map[bool]string{true: "no-where", false: "with-where"}[where == ""]
+		switch {
+		case pan:
+			ss.add(site+"/panic:"+fr, fmt.Sprintf("where %q: %s", where, msg))
+		case err != nil:
+			ss.add(site+"/error-aborts-read", fmt.Sprintf("where %q: %v", where, err))
+		case strings.Join(got, ",") != strings.Join(want, ","):
+			ss.add(site+"/wrong-entries", fmt.Sprintf("where %q read %v want %v (entry:nested entries)", where, got, want))
 		}
 	}
 }
